@@ -11,7 +11,7 @@ LADDERS = [("crate::fields::FieldElement::pow", "one", "squared", "mul_assign")]
 def run(ctx):
     repo = Repo(ctx.dev)
     closed, prim, r_step = shared.classify_u256(repo)
-    rules = [consts.rule_const("C06", repo), shared.rule_guard(repo), field.rule_guard_extra("C06", repo), r_step, field.rule_inv_none("C06", repo),
+    rules = [consts.rule_const("C06", repo), shared.rule_guard(repo), field.rule_guard_extra("C06", repo), r_step, field.rule_inv_none("C06", repo), field.rule_limb_predicates("C06", repo),
              field.rule_ops_forward("C06", repo, ["crate::fields::fp::Fr", "crate::fields::fp::Fq", "crate::Fr", "crate::Fq"]),
              ladder.rule_ladder("C06", repo, LADDERS), field.rule_bits("C06", repo), rule_canon_conv(repo), conv2.rule_scalar_encoders("C06", repo, conv2.make_conv(repo))]
     return report.emit(
